@@ -1,4 +1,190 @@
+"""combine workers under contract (C06): each with the layout precondition under which it is correct (derived from its
+body), and the postcondition 'every box gets hdrline(range, n1+n2) followed by the selected components of the first
+source then of the second source, F order'."""
+import z3
+from pyvc.vals import *  # noqa
+from pyvc.task import Task
+from pyvc.vc import veq
+from pyvc.loops import LoopSpec, Any
+from pyvc.libfile import RFile, WFile, f_size, hdrlen, f_exists
+from contracts.common import sym_path, Fab, fab_facts, size_of
+from contracts.ondisk import DiskFile
+
+CB = "amr_kitchen.combine.combine."
+I = z3.IntSort()
+
+
+def selection(ctx, name, nc):
+    nk = z3.Int(f"nk_{name}")
+    K = z3.Function(f"K_{name}", I, I)
+    t = z3.Int("t_")
+    ctx.assume(nk >= 0)
+    ctx.assume(z3.ForAll([t], z3.Implies(z3.And(t >= 0, t < nk), z3.And(K(t) >= 0, K(t) < nc))))
+    return nk, K, SymSeq(nk, lambda i: K(to_z3(i)), "list")
+
+
+def record(fb1, fb2, nk1, K1, nk2, K2):
+    a1 = NDArray(list(fb1.shape) + [nk1], lambda ix: fb1.value(ix[:-1], K1(to_z3(ix[-1]))))
+    a2 = NDArray(list(fb2.shape) + [nk2], lambda ix: fb2.value(ix[:-1], K2(to_z3(ix[-1]))))
+    return [("hdr", (tuple(fb1.lo), tuple(fb1.hi), nk1 + nk2), None), ("ser", a1, "F"), ("ser", a2, "F")]
+
+
+class ByBinfile(Task):
+    """parallel_combine_by_binfile: both files are scanned sequentially and the j-th FABs are paired.  Precondition
+    (the layout relation 'byfile' mode needs): both files are OnDisk with the same number of FABs and the j-th FABs have
+    the same index range."""
+    prop = "C06"
+    reach = "U"
+    qual = CB + "parallel_combine_by_binfile"
+
+    def __init__(self):
+        self.name = "parallel_combine_by_binfile"
+
+    def setup(self, ex):
+        ctx = ex.ctx
+        ctx.ghost["ndims"] = 3
+        d1 = DiskFile(ctx, "F1", 3, canonical=False)
+        d2 = DiskFile(ctx, "F2", 3, canonical=False)
+        pw, Fw = sym_path(ctx, "Fw", exists=False)
+        ctx.assume(z3.And(Fw != d1.F, Fw != d2.F, d1.m == d2.m))
+        nk1, K1, v1 = selection(ctx, "1", d1.nc)
+        nk2, K2, v2 = selection(ctx, "2", d2.nc)
+        OUT = z3.Function("OUTPOS", I, I)
+        ctx.assume(OUT(0) == 0)
+
+        def facts(j):
+            j = to_z3(j)
+            f1, f2 = d1.fab(j), d2.fab(j)
+            same = z3.And(*[f1.lo[d] == f2.lo[d] for d in range(3)], *[f1.hi[d] == f2.hi[d] for d in range(3)])
+            return z3.And(d1.facts(j), d2.facts(j),
+                          z3.Implies(z3.And(j >= 0, j < d1.m),
+                                     z3.And(same, OUT(j + 1) == OUT(j) + hdrlen(f1.lo, f1.hi, nk1 + nk2)
+                                            + 8 * size_of(ctx, list(f1.shape) + [nk1]) + 8 * size_of(ctx, list(f2.shape) + [nk2]))))
+
+        def rec(j):
+            return record(d1.fab(j), d2.fab(j), nk1, K1, nk2, K2)
+
+        def wtemplate(k):
+            wf = WFile(pw, Fw)
+            wf.nrec, wf.rec, wf.recstart, wf.rec_size = k, rec, (lambda j: OUT(to_z3(j))), 3
+            wf.pos = OUT(to_z3(k))
+            return wf
+
+        def template(ex_, fr, k, entry):
+            k3 = to_z3(k)
+            b1, b2 = RFile(d1.path, d1.F), RFile(d2.path, d2.F)
+            b1.pos, b2.pos = d1.P(k3), d2.P(k3)
+            return {"offsets": SymSeq(k, lambda j: OUT(to_z3(j))), "bf1": b1, "bf2": b2, "bfw": wtemplate(k),
+                    "__assume__": [z3.And(k3 >= 0, k3 <= d1.m), facts(k3)],
+                    "__assert__": [("in-range", k3 <= d1.m)]}
+        self.loopspecs = {(self.qual, 0): LoopSpec(template)}
+        args = {"bfile_r1": d1.path, "bfile_r2": d2.path, "bfile_w": pw, "vidxs1": v1, "vidxs2": v2}
+        return {"args": [args], "m": d1.m, "OUT": OUT, "wtemplate": wtemplate, "Fw": Fw}
+
+    def post(self, ex, inp, out):
+        common_post(ex, inp, out, {"<path:F1>", "<path:F2>"})
+
+
+def common_post(ex, inp, out, may_read):
+    ctx = ex.ctx
+    ctx.oblige("raises-nothing", out.kind == "ret", "P", note=str(out.exc) if out.kind != "ret" else "")
+    if out.kind != "ret":
+        return
+    m, OUT = inp["m"], inp["OUT"]
+    ctx.oblige("post.offsets", veq(ctx, out.value, SymSeq(m, lambda j: OUT(to_z3(j)))), "P")
+    wfs = ctx.ghost.get("wfiles", [])
+    ctx.oblige("frame.writes-only-output", len(wfs) == 1 and wfs[0].F is inp["Fw"], "P")
+    if len(wfs) == 1:
+        exp = inp["wtemplate"](m)
+        exp.closed = True
+        ctx.oblige("post.output-file-content", veq(ctx, wfs[0], exp), "P")
+    reads = {str(e[1]) for e in ctx.events if e[0] == "open-r"}
+    if may_read is not None:
+        ctx.oblige("frame.reads-only-inputs", reads <= may_read, "P", note=str(reads))
+
+
+class ByBoxes(Task):
+    """parallel_combine_by_boxes_offsets ('bybox' mode): box j of the task is read at its recorded offset in the first
+    file and at its recorded (file, offset) in the second plotfile.  Precondition: a FAB of the same index range sits at
+    both recorded places (what 'same box structure' + box-order pairing give)."""
+    prop = "C06"
+    reach = "U"
+    qual = CB + "parallel_combine_by_boxes_offsets"
+
+    def __init__(self):
+        self.name = "parallel_combine_by_boxes_offsets"
+
+    def setup(self, ex):
+        ctx = ex.ctx
+        ctx.ghost["ndims"] = 3
+        p1, F1 = sym_path(ctx, "F1")
+        pw, Fw = sym_path(ctx, "Fw", exists=False)
+        ctx.assume(Fw != F1)
+        m, nc1, nc2 = z3.Ints("m nc1 nc2")
+        ctx.assume(z3.And(m >= 0, nc1 >= 1, nc2 >= 1))
+        OFF1, OFF2, FID2 = (z3.Function(n, I, I) for n in ("OFF1", "OFF2", "FID2"))
+        nk1, K1, v1 = selection(ctx, "1", nc1)
+        nk2, K2, v2 = selection(ctx, "2", nc2)
+        OUT = z3.Function("OUTPOS", I, I)
+        ctx.assume(OUT(0) == 0)
+
+        def fabs(j):
+            j = to_z3(j)
+            return Fab(ctx, F1, OFF1(j), 3, nc1), Fab(ctx, FID2(j), OFF2(j), 3, nc2)
+
+        def facts(j):
+            j = to_z3(j)
+            f1, f2 = fabs(j)
+            same = z3.And(*[f1.lo[d] == f2.lo[d] for d in range(3)], *[f1.hi[d] == f2.hi[d] for d in range(3)])
+            return z3.Implies(z3.And(j >= 0, j < m), z3.And(
+                *[to_z3(f) for f in fab_facts(f1, False)], *[to_z3(f) for f in fab_facts(f2, False)], same,
+                f_exists(FID2(j)), FID2(j) != Fw, f_size(FID2(j)) >= 0,
+                OUT(j + 1) == OUT(j) + hdrlen(f1.lo, f1.hi, nk1 + nk2) + 8 * size_of(ctx, list(f1.shape) + [nk1])
+                + 8 * size_of(ctx, list(f2.shape) + [nk2])))
+
+        def path2(j):
+            o = Opaque("F2_of_box", "path")
+            o.sym = FID2(to_z3(j))
+            return o
+
+        def rec(j):
+            f1, f2 = fabs(j)
+            return record(f1, f2, nk1, K1, nk2, K2)
+
+        def wtemplate(k):
+            wf = WFile(pw, Fw)
+            wf.nrec, wf.rec, wf.recstart, wf.rec_size = k, rec, (lambda j: OUT(to_z3(j))), 3
+            wf.pos = OUT(to_z3(k))
+            return wf
+
+        def anyr(c):
+            r = RFile(p1, F1)
+            r.pos = c.fresh("rpos")
+            c.add_pc(r.pos >= 0)
+            return r
+
+        def template(ex_, fr, k, entry):
+            return {"offsets": SymSeq(k, lambda j: OUT(to_z3(j))), "bf1": Any(anyr), "bfw": wtemplate(k),
+                    "__assume__": [facts(k)]}
+        self.loopspecs = {(self.qual, 0): LoopSpec(template)}
+        args = {"bfile_r1": p1, "offst_r1": SymSeq(m, lambda j: OFF1(to_z3(j)), "ndarray"),
+                "bfile_r2": SymSeq(m, path2, "list"), "offst_r2": SymSeq(m, lambda j: OFF2(to_z3(j)), "ndarray"),
+                "bfile_w": pw, "vidxs1": v1, "vidxs2": v2}
+        return {"args": [args], "m": m, "OUT": OUT, "wtemplate": wtemplate, "Fw": Fw}
+
+    def post(self, ex, inp, out):
+        common_post(ex, inp, out, None)
+
+
 def combine_tasks(prop):
-    return []
+    return [ByBinfile(), ByBoxes()]
+
+
 def combine_canaries():
-    return []
+    f = "amr_kitchen/combine/combine.py"
+    return [("bybox worker: first plotfile read sequentially again",
+             [(f, "                bf1.seek(offset1)\n", "")], ["parallel_combine_by_boxes_offsets"]),
+            ("byfile worker: sources concatenated in the other order",
+             [(f, "                    dataw = np.concatenate([data1.flatten(order='F'),\n                                            data2.flatten(order='F')])\n                    bfw.write(dataw.tobytes())\n    return offsets\n\ndef parallel_combine_by_binfile_offsets",
+               "                    dataw = np.concatenate([data2.flatten(order='F'),\n                                            data1.flatten(order='F')])\n                    bfw.write(dataw.tobytes())\n    return offsets\n\ndef parallel_combine_by_binfile_offsets")],
+             ["parallel_combine_by_binfile"])]
